@@ -72,8 +72,8 @@ _IDENTIFIER = r"[_a-zA-Z]\w*"
 _NAMESPACE_IDENTIFIER = rf"{_IDENTIFIER}(\.{_IDENTIFIER})*"
 _PORT_PATTERN = rf"#({_NAMESPACE_IDENTIFIER})"
 _WILDCARD_PATTERN = rf"(({_IDENTIFIER})?)~"
-_LAMBDA_PATTERN = r"(?<![_A-Za-z])lambda(?![A-Za-z])"
-_IN_PATTERN = r"(^|[^\w])in($|[^\w])"
+_LAMBDA_PATTERN = r"(?<!\w)lambda(?!\w)"
+_IN_PATTERN = r"(?<!\w)in(?!\w)"
 
 _RESTRICTED_NAMES = {"__lambda__": "lambda", "__in__": "in"}
 
@@ -158,7 +158,7 @@ def _contains_in(expression: str) -> bool:
 
 
 def _replace_in(expression: str) -> str:
-    return re.sub(_IN_PATTERN, r"\1__in__\2", expression)
+    return re.sub(_IN_PATTERN, "__in__", expression)
 
 
 # Preprocessing stage replacing "in"s with _in
